@@ -43,7 +43,9 @@ var (
 	// invocation with the invocation index; it may sleep/yield/stall.
 	BeforeCallback func(n int64)
 	// Sink receives a copy of every buffer the callback filled.
-	Sink    func(n int64, buf []float32)
+	Sink func(n int64, buf []float32)
+	// SinkS is Sink with the stream the buffer belongs to (several streams may be open).
+	SinkS   func(s *Stream, n int64, buf []float32)
 	current *Stream
 )
 
@@ -58,6 +60,7 @@ func XReset() {
 	BufLen = 126
 	BeforeCallback = nil
 	Sink = nil
+	SinkS = nil
 	current = nil
 }
 
@@ -114,6 +117,7 @@ func (s *Stream) Start() error {
 	n := BufLen
 	before := BeforeCallback
 	sink := Sink
+	sinkS := SinkS
 	mu.Unlock()
 	go func() {
 		defer close(s.done)
@@ -131,6 +135,9 @@ func (s *Stream) Start() error {
 			s.cb(buf)
 			if sink != nil {
 				sink(k, buf)
+			}
+			if sinkS != nil {
+				sinkS(s, k, buf)
 			}
 			runtime.Gosched()
 		}
